@@ -87,17 +87,20 @@ ParseZlib(S) ==
 (* wrap in {"raw","gzip","gzip_nohdr","zlib","zlib_nohdr"}.                                       *)
 (* Result: tag Valid / NeedMore / Invalid(class); out; endByte = bytes of S the stream occupies;  *)
 (* d = the deflate-level result (blocks etc.); hdr = parsed header when there is one.             *)
+HeaderOf(wrap, S) == IF wrap = "gzip" THEN ParseGzip(S) ELSE IF wrap = "zlib" THEN ParseZlib(S) ELSE [st |-> "ok", end |-> 0]
+(* given the parsed header h (h.st = "ok") and the deflate-level result d of the body, judge the trailer *)
+FinishUnwrap(wrap, S, h, d) ==
+  LET eb == EndByte(d)
+      tl == IF wrap = "raw" THEN 0 ELSE IF wrap \in {"gzip", "gzip_nohdr"} THEN 8 ELSE 4
+  IN IF d.tag # "Valid" THEN [tag |-> d.tag, class |-> d.class, out |-> d.out, endByte |-> eb, hdr |-> h, d |-> d]
+     ELSE IF Len(S) < eb + tl THEN [tag |-> "NeedMore", class |-> "trailer", out |-> d.out, endByte |-> eb, hdr |-> h, d |-> d]
+     ELSE LET okT == CASE wrap = "raw" -> TRUE
+                       [] wrap \in {"gzip", "gzip_nohdr"} -> LE32(S, eb) = Crc32(d.out) /\ LE32(S, eb + 4) = LenLimbs(d.n)
+                       [] OTHER -> LET a == Adler32(d.out) IN BE32(S, eb) = <<a[1], a[2]>>
+          IN [tag |-> IF okT THEN "Valid" ELSE "Invalid", class |-> IF okT THEN "" ELSE "checksum",
+              out |-> d.out, endByte |-> eb + tl, hdr |-> h, d |-> d]
 Unwrap(wrap, S, dict) ==
-  LET h == IF wrap = "gzip" THEN ParseGzip(S) ELSE IF wrap = "zlib" THEN ParseZlib(S) ELSE [st |-> "ok", end |-> 0]
+  LET h == HeaderOf(wrap, S)
   IN IF h.st # "ok" THEN [tag |-> IF h.st = "needmore" THEN "NeedMore" ELSE "Invalid", class |-> h.st, out |-> <<>>, endByte |-> 0, hdr |-> h]
-  ELSE LET d == Decode(S, dict, 8 * h.end)
-           eb == EndByte(d)
-           tl == IF wrap = "raw" THEN 0 ELSE IF wrap \in {"gzip", "gzip_nohdr"} THEN 8 ELSE 4
-       IN IF d.tag # "Valid" THEN [tag |-> d.tag, class |-> d.class, out |-> d.out, endByte |-> eb, hdr |-> h, d |-> d]
-          ELSE IF Len(S) < eb + tl THEN [tag |-> "NeedMore", class |-> "trailer", out |-> d.out, endByte |-> eb, hdr |-> h, d |-> d]
-          ELSE LET okT == CASE wrap = "raw" -> TRUE
-                            [] wrap \in {"gzip", "gzip_nohdr"} -> LE32(S, eb) = Crc32(d.out) /\ LE32(S, eb + 4) = LenLimbs(d.n)
-                            [] OTHER -> LET a == Adler32(d.out) IN BE32(S, eb) = <<a[1], a[2]>>
-               IN [tag |-> IF okT THEN "Valid" ELSE "Invalid", class |-> IF okT THEN "" ELSE "checksum",
-                   out |-> d.out, endByte |-> eb + tl, hdr |-> h, d |-> d]
+     ELSE FinishUnwrap(wrap, S, h, Decode(S, dict, 8 * h.end))
 =============================================================================
